@@ -448,7 +448,17 @@ def worker(case: Dict[str, Any]) -> CaseResult:
             target = (root / cfg["target_package_path"] / target_rel)
         else:
             target = root / target_rel
-        write_case(root, sdl, queries if strategy == "client" else None, dict(cfg))
+        query_files = None
+        if case.get("layout") == "dir" and strategy == "client":
+            # the same invalid document, one definition per file of a queries directory (nested folders, every documented extension): what is invalid as one
+            # document is invalid as a directory - the rules about names hold across files
+            from graphql import print_ast
+            defs_ = [print_ast(d_) for d_ in parse(queries).definitions]
+            exts = [".graphql", ".gql", ".graphqls"]
+            query_files = {("%s%02d_def%s" % ("nested/deeper/" if k_ % 3 == 2 else ("nested/" if k_ % 3 == 1 else ""), k_, exts[k_ % 3])): t_ + "\n" for k_, t_ in enumerate(defs_)}
+            cfg["queries_path"] = "queries_dir"
+            feats = list(feats) + ["layout.queries_directory"]
+        write_case(root, sdl, (queries if strategy == "client" else None) if not query_files else None, dict(cfg), query_files=query_files)
         (root / "pyproject.toml").write_text(__import__("toml").dumps({"tool": {"ariadne-codegen": cfg}}))
         before = tree_snapshot(target)
         AUDIT.events.clear()
@@ -537,12 +547,28 @@ def valid_worker(case: Dict[str, Any]) -> CaseResult:
         elif label == "all-names-custom":
             cfg.update({"target_package_name": "my_pkg", "client_name": "MyClient", "client_file_name": "my_client", "enums_module_name": "my_enums",
                         "input_types_module_name": "my_inputs", "fragments_module_name": "my_fragments"})
+        elif label.startswith("names-set-"):
+            from ._clientworld import NAME_SETS
+            cfg.update(NAME_SETS[int(label.rsplit("-", 1)[1])])
+        elif label.startswith("package-named-"):
+            # a package and the modules inside it do not share a namespace
+            cfg["target_package_name"] = label[len("package-named-"):]
+        elif label == "custom-base-client-in-block":
+            from ._clientworld import CUSTOM_BASE_CLIENT
+            (root / "lib").mkdir()
+            (root / "lib" / "transport.py").write_text(CUSTOM_BASE_CLIENT)
+            cfg.update({"base_client_file_path": "lib/transport.py", "base_client_name": "TransportBaseClient", "async_client": False})
+        elif label == "package-path-nested":
+            (root / "src" / "generated").mkdir(parents=True)
+            cfg.update({"target_package_path": "src/generated", "target_package_name": "api_v2"})
         elif label == "unused-fragment":
             pass
         elif label == "scalar-full":
             cfg["scalars"] = {"When": {"type": "datetime.datetime"}}
         elif label == "target-upper-ext":
             cfg["target_file_path"] = "OUT.GRAPHQL"
+        elif label.startswith("target-mixed-ext:"):
+            cfg["target_file_path"] = label.split(":", 1)[1]
         queries = QUERIES + ("\nfragment Unused on User { id }\n" if label == "unused-fragment" else "")
         write_case(root, SCHEMA, queries if strategy == "client" else None, cfg, section_style=section_style)
         import toml
@@ -603,16 +629,26 @@ def all_cases(tier: str) -> List[Dict[str, Any]]:
         for st in (states if tier == "thorough" else [states[idx % 4], "previous"]):
             cases.append({"kind": "collision", "label": label, "strategy": "client", "state": st, "idx": idx})
         idx += 1
-    for label, _ in INVALID_OPS:
+    for label, text in INVALID_OPS:
         for st in (states if tier == "thorough" else [states[idx % 4], "previous"]):
             cases.append({"kind": "operation", "label": label, "strategy": "client", "state": st, "idx": idx})
+        from graphql import parse as _parse
+        try:
+            several = len(_parse(text).definitions) >= 2
+        except Exception:  # noqa: BLE001
+            several = False
+        if several:
+            for st in (states if tier == "thorough" else [states[(idx + 1) % 4]]):
+                cases.append({"kind": "operation", "label": label, "strategy": "client", "state": st, "idx": idx, "layout": "dir"})
         idx += 1
     return cases
 
 
 VALID = [("unknown-keys-nested", "client"), ("headers-dollar-inside", "client"), ("headers-dollar-inside", "graphqlschema"), ("headers-env", "client"), ("headers-env", "graphqlschema"), ("unknown-keys", "client"), ("unknown-keys", "graphqlschema"), ("deprecated-section", "client"), ("bool-comments", "client"), ("headers-literal", "client"),
          ("custom-base-client", "client"), ("all-names-custom", "client"), ("unused-fragment", "client"), ("scalar-full", "client"), ("target-upper-ext", "graphqlschema"),
-         ("plain", "client"), ("plain", "graphqlschema")]
+         ("plain", "client"), ("plain", "graphqlschema"), ("custom-base-client-in-block", "client"), ("package-path-nested", "client")] + [
+    ("names-set-%d" % k, "client") for k in range(6)] + [("package-named-%s" % n, "client") for n in ("client", "enums", "input_types", "fragments", "base_model", "exceptions")] + [
+    ("target-mixed-ext:%s" % n, "graphqlschema") for n in ("Schema.GraphQL", "schema.GQL", "schema.Gql", "SCHEMA.PY")]
 
 
 try:
